@@ -82,7 +82,7 @@ def gen_histories(ck, n, steps):
         for _ in range(rng.randrange(steps // 2, steps)):
             op = rng.choice(["listen", "connect", "connect", "conn", "conn", "conn", "bind", "conn0", "accept", "accept",
                              "send", "send", "send", "send", "pclose", "wait", "wait", "wait", "remove", "config",
-                             "connectbad", "listenbad", "fini"])
+                             "connectbad", "listenbad", "fini", "unbind", "unbind", "keepread"])
             if nin > 40:
                 op = rng.choice(["send", "wait", "remove", "pclose", "fini"])
             if op in ("listen", "connect"):
@@ -95,7 +95,11 @@ def gen_histories(ck, n, steps):
             elif op == "conn0":
                 beh.append({"a": "conn", "arg": {"l": 0}})
                 nin += 1
-            elif op in ("bind", "accept", "wait", "connectbad", "listenbad"):
+            elif op == "accept":
+                beh.append({"a": op, "arg": {"low": rng.choice([0, 1])}})
+            elif op == "keepread" and nin:
+                beh.append({"a": op, "arg": {"i": rng.randrange(1, nin + 1)}})
+            elif op in ("bind", "wait", "connectbad", "listenbad", "unbind"):
                 beh.append({"a": op, "arg": {"x": 0}})
                 if op == "wait":
                     dirty.clear()
